@@ -37,13 +37,19 @@ def cases(d, force=None):
     wb = d.choice([3, 4, 5])
     fs = [{"name": "a", "kind": "bit", "w": wa, "signed": False, "rand": True, "init": 0},
           {"name": "b", "kind": "bit", "w": wb, "signed": False, "rand": True, "init": 0}]
+    enum_a = force is None and d.chance(20)
+    if enum_a:
+        # the earlier variable is an enum field (four enumerators with the values 0..3)
+        wa = 2
+        fs[0] = {"name": "a", "kind": "enum", "w": 32, "signed": True, "rand": True, "enum": "EA", "dom": [0, 1, 2, 3], "init": 0}
     has_c = d.chance(50) or force == "const_middle"
     if has_c:
         fs.append({"name": "c", "kind": "bit", "w": d.choice([2, 3]), "signed": False, "rand": True, "init": 0})
     amax = (1 << wa) - 1
     stmts = []
     # bound a to a contiguous interval
-    r = d.randint(0, 99)
+    r = d.randint(0, 99) if not enum_a else 99
+    AL = (lambda v_: ["elit", v_, "EA", "ABCD"[v_]]) if enum_a else L       # a literal a is compared with
     lo, hi = 0, amax
     if r < 35:
         hi = d.randint(1, amax)
@@ -53,24 +59,24 @@ def cases(d, force=None):
         hi = d.randint(lo + 1, amax)
         stmts.append(["expr", ["in", F("a"), [["rng", L(lo), L(hi)]]]])
     # couple b to a
-    k = d.randint(0, 99)
+    k = d.randint(0, 99) if not enum_a else d.randint(50, 84)
     if k < 30:
         stmts.append(["expr", B("<=", F("b"), F("a"))])
     elif k < 50:
         stmts.append(["expr", B("<", F("b"), B("+", F("a"), L(d.randint(1, 2))))])
     elif k < 70:
         v = d.randint(lo, hi)
-        stmts.append(["implies", B("==", F("a"), L(v)), [["expr", B("==", F("b"), L(d.randint(0, 3)))]]])
+        stmts.append(["implies", B("==", F("a"), AL(v)), [["expr", B("==", F("b"), L(d.randint(0, 3)))]]])
     elif k < 85:
         v = d.randint(lo, hi)
-        stmts.append(["if", [[B("==", F("a"), L(v)), [["expr", B("<", F("b"), L(2))]]]], [["expr", B(">=", F("b"), L(0))]]])
+        stmts.append(["if", [[B("==", F("a"), AL(v)), [["expr", B("<", F("b"), L(2))]]]], [["expr", B(">=", F("b"), L(0))]]])
     else:
         stmts.append(["expr", ["in", F("b"), [["rng", F("a"), B("+", F("a"), L(d.randint(0, 3)))]]]])
     if has_c:
-        stmts.append(["expr", B("<=", F("c"), F("b"))] if d.chance(60) else ["unique", [F("a"), F("c")]])
+        stmts.append(["expr", B("<=", F("c"), F("b"))] if (d.chance(60) or enum_a) else ["unique", [F("a"), F("c")]])
     # ordering directive
     o = d.randint(0, 99)
-    two_before = has_c and d.chance(40) and force != "const_middle"
+    two_before = has_c and d.chance(40) and force != "const_middle" and not enum_a
     if force == "const_middle":
         o = 50
     if two_before:
@@ -92,7 +98,7 @@ def cases(d, force=None):
         order = [["order", ["a"], ["b"]], ["order", ["b"], ["c"]]]
         if d.chance(40):
             order.reverse()
-        if d.chance(35) or force == "const_middle":
+        if (d.chance(35) and not enum_a) or force == "const_middle":
             # the middle variable of the chain is not random in the call (a constant with a generated value): a is still
             # ordered before c through it
             fs[1]["rand"] = False
@@ -112,7 +118,8 @@ def cases(d, force=None):
     # at least one companion for every a (checked at run time; otherwise the variant is skipped)
     variant = d.choice([["expr", B("<=", F("b"), L(d.randint(0, 3)))], ["expr", B("!=", F("b"), L(d.randint(0, 2)))],
                         ["expr", B("==", B("&", F("b"), L(1)), L(0))]])
-    prog = {"enums": {}, "classes": [{"name": "T", "fields": fs, "blocks": [{"name": "c0", "stmts": stmts_o}]}]}
+    enums = {"EA": {"int": True, "members": [["A", 0], ["B", 1], ["C", 2], ["D", 3]]}} if enum_a else {}
+    prog = {"enums": enums, "classes": [{"name": "T", "fields": fs, "blocks": [{"name": "c0", "stmts": stmts_o}]}]}
     return {"mode": "enum", "prog": prog, "inline": None, "calls": [{"kind": d.choice(["randomize", "randomize_with"]), "seed": d.seed()}],
             "sel": [d.randint(0, 1 << 16) for _ in range(8)], "pseed": d.seed(), "variant": variant, "dseed": d.seed()}
 
@@ -183,7 +190,7 @@ def run_case(case, n_draws=3000):
         obj = flat.instantiate(ns, prog)
         # (2) no corner: pin a to every value of its type
         for v in sem.domain(types["a"]):
-            st, exc = flat.do_call(ns, obj, "randomize_with", [["expr", B("==", F("a"), L(v))]], case["pseed"])
+            st, exc = flat.do_call(ns, obj, "randomize_with", flat.pin_stmts(prog, [types["a"]], {"a": v}), case["pseed"])
             if st == "exc":
                 reset_library()
                 return [V("library_exception", "pin a: " + exc.sig, case, "a == %d raised %r" % (v, exc))], info
@@ -202,7 +209,11 @@ def run_case(case, n_draws=3000):
         cap = c14._captured[-1] if c14._captured else None
         rg = cap["ranges"].get("a") if cap else None
         contiguous = feas == list(range(feas[0], feas[-1] + 1))
-        pre = bool(rg) and len(rg) == 1 and contiguous and sorted(rg[0]) == [feas[0], feas[-1]] and len(feas) >= 2
+        # the values the field is steered over are exactly its feasible values, in intervals of one common length (one
+        # interval, or the single-value intervals of an enum domain): the interval is drawn uniformly, then the value in it
+        covered = sorted(v_ for a_, b_ in (rg or []) for v_ in range(min(a_, b_), max(a_, b_) + 1))
+        pre = bool(rg) and len(set(abs(b_ - a_) for a_, b_ in rg)) == 1 and covered == feas and len(feas) >= 2 \
+            and (len(rg) == 1 or types["a"]["kind"] == "enum")
         info["precondition"] = pre
         if pre:
             h = histogram(ns, obj, fields, n_draws, case["dseed"])
@@ -240,7 +251,7 @@ def run_case(case, n_draws=3000):
             for s in r2[1]:
                 comp2[s[ia]] = comp2.get(s[ia], 0) + 1
             if sorted(comp2) == feas and comp2 != comp:
-                prog2 = {"enums": {}, "classes": [dict(cls, blocks=[{"name": "c0", "stmts": stm2}])]}
+                prog2 = {"enums": prog.get("enums", {}), "classes": [dict(cls, blocks=[{"name": "c0", "stmts": stm2}])]}
                 ns2 = flat.build(prog2)
                 obj2 = flat.instantiate(ns2, prog2)
                 del c14._captured[:]
@@ -259,7 +270,7 @@ def run_case(case, n_draws=3000):
             # (4) control without the directive (reported only)
             if info["skew"] >= 4:
                 stm3 = [s for s in stmts if s[0] != "order"]
-                prog3 = {"enums": {}, "classes": [dict(cls, blocks=[{"name": "c0", "stmts": stm3}])]}
+                prog3 = {"enums": prog.get("enums", {}), "classes": [dict(cls, blocks=[{"name": "c0", "stmts": stm3}])]}
                 ns3 = flat.build(prog3)
                 obj3 = flat.instantiate(ns3, prog3)
                 h3 = histogram(ns3, obj3, fields, min(n_draws, 1500), case["dseed"])
